@@ -1,406 +1,189 @@
 package main
 
-// c03unpad: branch-fact rules for a PKCS#7 unpad function
+// c03unpad: scenario rules for a PKCS#7 unpad function
 //
 //	f(buf []byte, size int) ([]byte, error)
 //
-// (1) pad length bounds: on every return of (buf[:len(buf)-P], nil) the facts
-// 1 <= P and P <= size must hold, established by dominating comparisons of the
-// pad-length value P (the last byte of buf, through integer conversions)
-// against 0/1 and against the block-size PARAMETER. An upper bound against
-// anything else (the buffer length, …), a strict `P < size`, or no bound at
-// all is a violation; if P also flows into calls / masks / arithmetic the
-// facts of which are not visible here, the verdict is UNDECIDED.
+// decided with the abstract interpreter on a buffer whose bytes are SYMBOLIC
+// except the last one, which holds a chosen pad length P (size = 16):
 //
-// (2) padding bytes verified: there is an index loop from len(buf)-P up to
-// len(buf), step 1, in which buf[i] is compared with byte(P), whose mismatch
-// edge cannot reach the success return and whose exit edge dominates it.
-// A loop that compares buf[i] with byte(P) but starts/ends elsewhere is a
-// violation; any other shape (bytes.Equal, reverse loop, …) is UNDECIDED.
+// (1) pad length bounds: P = 0 and every P > size (also P <= len(buf)) make
+// every path return an error (no panic); every 1 <= P <= size is accepted on
+// some path and exactly P bytes are stripped.
+//
+// (2) padding bytes verified: on every accepting path each of the bytes
+// buf[len-P .. len-1) has been compared with P (through ==/!= on a taken
+// branch, bytes.Equal / hmac.Equal / subtle.ConstantTimeCompare / HasSuffix
+// against a run of P) and found equal. A byte that is never read on an
+// accepting path, compared with another value, or found different and still
+// accepted is a violation; a byte that is read but flows into something the
+// interpreter does not model (arithmetic accumulation, unknown calls) is
+// UNDECIDED.
+//
+// No shape of the source is assumed: helpers are followed, loops of any form
+// are executed on the concrete lengths, renames do not matter.
 
 import (
 	"fmt"
-	"go/token"
 	"go/types"
+	"sort"
 
 	"golang.org/x/tools/go/ssa"
 )
 
-type c03Unpad struct {
-	fn        *ssa.Function
-	buf, size *ssa.Parameter
-}
-
-func (u *c03Unpad) root(v ssa.Value) ssa.Value {
-	for {
-		switch x := v.(type) {
-		case *ssa.Convert:
-			if c03IntWidth(x.Type()) > 0 && c03IntWidth(x.X.Type()) > 0 {
-				v = x.X
-				continue
-			}
-		case *ssa.ChangeType:
-			v = x.X
-			continue
-		}
-		return v
-	}
-}
-
-func (u *c03Unpad) isLen(v ssa.Value) bool {
-	c, ok := u.root(v).(*ssa.Call)
-	return ok && builtinName(c) == "len" && len(c.Call.Args) == 1 && c.Call.Args[0] == ssa.Value(u.buf)
-}
-
-func (u *c03Unpad) isSize(v ssa.Value) bool { return u.root(v) == ssa.Value(u.size) }
-
-// isLastByte: v is a load of buf[len(buf)-1].
-func (u *c03Unpad) isLastByte(v ssa.Value) bool {
-	ld, ok := u.root(v).(*ssa.UnOp)
-	if !ok || ld.Op != token.MUL {
-		return false
-	}
-	ia, ok := ld.X.(*ssa.IndexAddr)
-	if !ok || ia.X != ssa.Value(u.buf) {
-		return false
-	}
-	bo, ok := ia.Index.(*ssa.BinOp)
-	if !ok || bo.Op != token.SUB || !u.isLen(bo.X) {
-		return false
-	}
-	k, ok := c03ConstInt(bo.Y)
-	return ok && k == 1
-}
-
-// sameP: v denotes the pad length P (same SSA root, or another load of the last byte).
-func (u *c03Unpad) sameP(v, P ssa.Value) bool {
-	if u.root(v) == u.root(P) {
-		return true
-	}
-	return u.isLastByte(v) && u.isLastByte(P)
-}
-
-func c03FlipOp(op token.Token) token.Token {
-	switch op {
-	case token.LSS:
-		return token.GTR
-	case token.GTR:
-		return token.LSS
-	case token.LEQ:
-		return token.GEQ
-	case token.GEQ:
-		return token.LEQ
-	}
-	return op
-}
-
-// c03CheckUnpad generates the two obligations for fn.
 func c03CheckUnpad(p *Prog, r *Report, rule string, fn *ssa.Function) {
 	name := FuncName(p, fn)
 	pos := p.Pos(fn.Pos())
 	cBounds, cLoop := name+" pad length bounds", name+" padding bytes verified"
-	und := func(construct, why string) {
-		r.Undecide("%s %s: %s", rule, construct, why)
-		r.Trivial(rule, construct, pos, "undecided")
-	}
-	u := &c03Unpad{fn: fn}
+	e := &c03Env{p: p, r: r, mod: p.ModPath}
+	var buf, size *ssa.Parameter
 	for _, pa := range fn.Params {
 		switch t := pa.Type().Underlying().(type) {
 		case *types.Slice:
-			if u.buf == nil {
-				u.buf = pa
+			if buf == nil {
+				buf = pa
 			}
 		case *types.Basic:
-			if t.Info()&types.IsInteger != 0 && u.size == nil {
-				u.size = pa
+			if t.Info()&types.IsInteger != 0 && size == nil {
+				size = pa
 			}
 		}
 	}
-	if u.buf == nil || u.size == nil {
-		und(cBounds, "the function no longer has a ([]byte, int) signature")
-		und(cLoop, "the function no longer has a ([]byte, int) signature")
+	if buf == nil || size == nil || len(fn.Params) != 2 || fn.Signature.Results().Len() != 2 {
+		for _, c := range []string{cBounds, cLoop} {
+			r.Undecide("%s %s: the function no longer has the signature ([]byte, int) ([]byte, error)", rule, c)
+			r.Trivial(rule, c, pos, "undecided")
+		}
 		return
 	}
-	// success returns that strip: (buf[:len(buf)-P], nil)
-	type strip struct {
-		ret *ssa.Return
-		P   ssa.Value
-	}
-	var strips []strip
-	otherSuccess := false
-	for _, b := range fn.Blocks {
-		if len(b.Instrs) == 0 {
-			continue
-		}
-		ret, ok := b.Instrs[len(b.Instrs)-1].(*ssa.Return)
-		if !ok || len(ret.Results) != 2 || !isNilConst(ret.Results[1]) {
-			continue
-		}
-		sl, ok := ret.Results[0].(*ssa.Slice)
-		if ok && sl.X == ssa.Value(u.buf) && sl.Low == nil && sl.High != nil {
-			if bo, ok := sl.High.(*ssa.BinOp); ok && bo.Op == token.SUB && u.isLen(bo.X) {
-				strips = append(strips, strip{ret, bo.Y})
-				continue
+	const bs = 16
+	run := func(L, P int64) c03Run {
+		sc := &c03Scenario{KeyLen: -1, NonceSize: -1, Overhead: -1}
+		mem := map[ssa.Value]c03V{buf: {K: c03Struct, M: map[string]c03V{"#sym": c03BoolV(true), fmt.Sprintf("#%d", L-1): c03IntV(P)}}}
+		args := make([]c03V, 2)
+		for k, pa := range fn.Params {
+			if pa == buf {
+				args[k] = c03V{K: c03Slice, I: L, Ref: buf}
+			} else {
+				args[k] = c03IntV(bs)
 			}
 		}
-		if sl2, isSl := ret.Results[0].(*ssa.Slice); (isSl && sl2.X == ssa.Value(u.buf)) || ret.Results[0] == ssa.Value(u.buf) {
-			otherSuccess = true
-		}
-	}
-	if len(strips) == 0 || otherSuccess {
-		und(cBounds, "no return of the shape (buf[:len(buf)-padLen], nil) found, or another success return hands out part of buf")
-		und(cLoop, "no return of the shape (buf[:len(buf)-padLen], nil) found")
-		return
+		return e.runMem(sc, fn, args, mem, fmt.Sprintf("%d-byte message whose last byte is %d, block size %d", L, P, bs))
 	}
 
-	for _, st := range strips {
-		P := st.P
-		rpos := p.Pos(st.ret.Pos())
-		// does P take part in anything whose facts are not visible as comparisons?
-		escape := ""
-		seen := map[ssa.Value]bool{}
-		var walk func(v ssa.Value)
-		walk = func(v ssa.Value) {
-			if seen[v] {
-				return
-			}
-			seen[v] = true
-			for _, rf := range refs(v) {
-				switch x := rf.(type) {
-				case *ssa.Convert:
-					walk(x)
-				case *ssa.ChangeType:
-					walk(x)
-				case *ssa.BinOp:
-					switch x.Op {
-					case token.EQL, token.NEQ, token.LSS, token.LEQ, token.GTR, token.GEQ, token.SUB:
-					case token.ADD:
-						walk(x)
-					default:
-						escape = "it is combined with " + x.Op.String() + " at " + p.Pos(instrPos(x))
-					}
-				case ssa.CallInstruction:
-					if builtinName(x) == "" {
-						escape = "it is passed to " + c03CalleeName(x) + " at " + p.Pos(instrPos(x))
-					}
-				case *ssa.Phi:
-					escape = "it is merged into a loop/branch variable at " + p.Pos(instrPos(x))
+	// (1) bounds
+	var vb c03Verdict
+	for _, L := range []int64{32, 48} {
+		for _, P := range []int64{0, 17, 20, 31, 32, 33, 48, 49, 200, 255} {
+			w := e.allRejected(run(L, P), "")
+			if w.bad != "" {
+				if P == 0 {
+					w.bad += " — a final byte 0 is not a PKCS#7 pad length"
+				} else {
+					w.bad += fmt.Sprintf(" — a pad length larger than the block size (%d > %d) is not PKCS#7; every other implementation rejects it", P, bs)
 				}
 			}
+			vb.merge(w)
 		}
-		walk(u.root(P))
-		if !u.isLastByte(P) {
-			if _, isParamOrConst := u.root(P).(*ssa.Const); isParamOrConst {
-				escape = "the stripped length is a constant"
-			}
-		}
-
-		lower, upperOK := int64(-1<<31), false
-		var upperBad []string
-		nonneg := false
-		if b, ok := u.root(P).Type().Underlying().(*types.Basic); ok && b.Info()&types.IsUnsigned != 0 {
-			nonneg = true
-		}
-		for _, dc := range domConds(st.ret.Block()) {
-			cmp, ok := decodeCond(dc.If.Cond, dc.Branch)
-			if !ok {
-				continue
-			}
-			X, Y, op := cmp.X, cmp.Y, cmp.Op
-			if !u.sameP(X, P) && u.sameP(Y, P) {
-				X, Y, op = Y, X, c03FlipOp(op)
-			}
-			if !u.sameP(X, P) {
-				continue
-			}
-			where := p.Pos(instrPos(dc.If))
-			if k, isK := c03ConstInt(Y); isK {
-				switch op {
-				case token.GTR:
-					if k+1 > lower {
-						lower = k + 1
-					}
-				case token.GEQ:
-					if k > lower {
-						lower = k
-					}
-				case token.NEQ:
-					if k == 0 && nonneg && lower < 1 {
-						lower = 1
-					}
-				case token.LEQ, token.LSS:
-					upperBad = append(upperBad, fmt.Sprintf("the constant %d (%s)", k, where))
-				}
-				continue
-			}
-			// P ⋈ size (+1)
-			sizeLike, plusOne := u.isSize(Y), false
-			if bo, ok := u.root(Y).(*ssa.BinOp); ok && bo.Op == token.ADD && u.isSize(bo.X) {
-				if k, isK := c03ConstInt(bo.Y); isK && k == 1 {
-					sizeLike, plusOne = true, true
-				}
-			}
-			switch op {
-			case token.LEQ, token.LSS:
+		for _, P := range []int64{1, 2, 15, 16} {
+			rn := run(L, P)
+			w := c03Verdict{truncated: rn.truncated, n: len(rn.outs)}
+			ok := false
+			for _, o := range rn.outs {
 				switch {
-				case sizeLike && ((op == token.LEQ && !plusOne) || (op == token.LSS && plusOne)):
-					upperOK = true
-				case sizeLike:
-					upperBad = append(upperBad, fmt.Sprintf("the block size, but strictly (%s): a full block of padding, which PadPKCS7 emits for block-aligned input, is refused", where))
-				case u.isLen(Y):
-					upperBad = append(upperBad, fmt.Sprintf("the length of the buffer instead of the block size (%s)", where))
-				default:
-					upperBad = append(upperBad, fmt.Sprintf("%s (%s), which is not the block-size parameter", Y.Name(), where))
+				case o.Panic != "" && !o.Imprecise:
+					w.bad = rn.desc + ": " + o.Panic
+				case c03Success(o):
+					if got := c03KnownLen(o.Res[0]); got == L-P {
+						ok = true
+					} else if got >= 0 && w.bad == "" {
+						w.bad = fmt.Sprintf("%s: %d bytes returned, %d expected (exactly the pad length must be stripped)", rn.desc, got, L-P)
+					} else if got < 0 {
+						w.imprecise = rn.desc + ": length of the returned slice unknown"
+					}
 				}
 			}
+			if !ok && w.bad == "" && w.imprecise == "" && !rn.truncated {
+				w.bad = rn.desc + ": well-formed padding is refused on every path (PadPKCS7 emits up to a full block of padding)"
+			}
+			vb.merge(w)
 		}
-		switch {
-		case lower >= 1 && upperOK:
-			r.OK(rule, cBounds, rpos, "the stripping return is dominated by 1 <= padLen and padLen <= size")
-		case escape != "":
-			und(cBounds, "the pad length is not (only) bounded by visible comparisons: "+escape)
-		case !upperOK && len(upperBad) > 0:
-			r.Violation(rule, cBounds, rpos, "the pad-length byte is bounded by "+upperBad[0]+": a tail of N copies of the byte N with N > size is stripped and returned without error, which PKCS#7 (and every other implementation) rejects — e.g. CBC of two blocks of 0x20 decrypts to an empty plaintext", upperBad...)
-		case !upperOK:
-			r.Violation(rule, cBounds, rpos, "the stripping return is not dominated by any test padLen <= size: a pad-length byte larger than the block size is accepted (or panics on a negative slice bound) instead of ErrInvalidPKCS7Padding")
-		default:
-			r.Violation(rule, cBounds, rpos, "the stripping return is not dominated by a test padLen >= 1: a final byte 0 is accepted and the unstripped buffer returned without error, which PKCS#7 rejects")
-		}
-
-		// (2) verification loop
-		u.checkLoop(p, r, rule, cLoop, st.ret, P, und)
 	}
-}
+	e.settle(rule, cBounds, pos, vb, "pad lengths 0 and > size are rejected, 1..size are accepted and exactly that many bytes are stripped", "the pad-length byte is not bounded by 1 <= padLen <= size (the block size)")
 
-func (u *c03Unpad) checkLoop(p *Prog, r *Report, rule, construct string, ret *ssa.Return, P ssa.Value, und func(string, string)) {
-	fn := u.fn
-	rpos := p.Pos(ret.Pos())
-	type cand struct {
-		phi      *ssa.Phi
-		start    ssa.Value
-		cmp      *ssa.BinOp
-		mismatch *ssa.BasicBlock
-	}
-	var cands []cand
-	allInstrs(fn, func(in ssa.Instruction) {
-		bo, ok := in.(*ssa.BinOp)
-		if !ok || (bo.Op != token.NEQ && bo.Op != token.EQL) {
-			return
-		}
-		for _, pr := range [][2]ssa.Value{{bo.X, bo.Y}, {bo.Y, bo.X}} {
-			ld, ok := pr[0].(*ssa.UnOp)
-			if !ok || ld.Op != token.MUL || !u.sameP(pr[1], P) {
+	// (2) every padding byte compared with the pad length before accepting
+	var vl c03Verdict
+	for _, P := range []int64{1, 2, 5, 16} {
+		const L = 32
+		rn := run(L, P)
+		w := c03Verdict{truncated: rn.truncated, n: len(rn.outs)}
+		unconstrained, anySuccess, constrainedAt := false, false, int64(-1)
+		for _, o := range rn.outs {
+			if !c03Success(o) {
 				continue
 			}
-			ia, ok := ld.X.(*ssa.IndexAddr)
-			if !ok || ia.X != ssa.Value(u.buf) {
-				continue
-			}
-			phi, ok := ia.Index.(*ssa.Phi)
-			if !ok {
-				continue
-			}
-			// the If consuming the comparison
-			for _, rf := range refs(bo) {
-				ifi, ok := rf.(*ssa.If)
-				if !ok {
-					continue
+			anySuccess = true
+			outside := int64(-1)
+			for _, ev := range o.Events {
+				if ev.Name == "cmpbytes" && len(ev.Args) == 4 && ev.Args[0].I < int64(L)-P {
+					outside = ev.Args[0].I
 				}
-				k := 0 // successor taken on mismatch
-				if bo.Op == token.EQL {
-					k = 1
-				}
-				c := cand{phi: phi, cmp: bo, mismatch: ifi.Block().Succs[k]}
-				step := false
-				for _, e := range phi.Edges {
-					if add, ok := e.(*ssa.BinOp); ok && add.Op == token.ADD && add.X == ssa.Value(phi) {
-						if kk, isK := c03ConstInt(add.Y); isK && kk == 1 {
-							step = true
-							continue
+			}
+			if outside < 0 {
+				unconstrained = true
+			} else {
+				constrainedAt = outside
+			}
+			var missing, readOnly []int64
+			for i := int64(L) - P; i < L-1; i++ {
+				cmpOK, cmpBad, read := false, "", false
+				for _, ev := range o.Events {
+					if len(ev.Args) < 2 || ev.Args[0].I > i || i >= ev.Args[1].I {
+						continue
+					}
+					switch ev.Name {
+					case "cmpbytes":
+						switch {
+						case !ev.Args[3].B:
+							cmpBad = fmt.Sprintf("byte %d of the message was found DIFFERENT from %d and the message is still accepted", i, ev.Args[2].I)
+						case ev.Args[2].I != P:
+							cmpBad = fmt.Sprintf("byte %d of the message is compared with %d instead of the pad length %d", i, ev.Args[2].I, P)
+						default:
+							cmpOK = true
 						}
-					}
-					c.start = e
-				}
-				if step && c.start != nil {
-					cands = append(cands, c)
-				}
-			}
-		}
-	})
-	if len(cands) == 0 {
-		und(construct, "no ascending index loop comparing buf[i] with byte(padLen) found (another way of verifying the padding bytes may be in use)")
-		return
-	}
-	for _, c := range cands {
-		where := p.Pos(instrPos(c.cmp))
-		// start == len(buf) - P
-		startOK, startDesc := false, "an expression the checker does not classify"
-		if bo, ok := c.start.(*ssa.BinOp); ok && bo.Op == token.SUB && u.isLen(bo.X) {
-			switch {
-			case u.sameP(bo.Y, P):
-				startOK = true
-			case u.isSize(bo.Y):
-				startDesc = "len(buf)-size"
-			default:
-				if in, ok := u.root(bo.Y).(*ssa.BinOp); ok && (in.Op == token.ADD || in.Op == token.SUB) && u.sameP(in.X, P) {
-					if k, isK := c03ConstInt(in.Y); isK && k != 0 {
-						startDesc = fmt.Sprintf("len(buf)-(padLen%s%d)", in.Op.String(), k)
+					case "readbytes":
+						read = true
 					}
 				}
+				switch {
+				case cmpBad != "":
+					if w.bad == "" {
+						w.bad = rn.desc + ": " + cmpBad
+					}
+				case cmpOK:
+				case read:
+					readOnly = append(readOnly, i)
+				default:
+					missing = append(missing, i)
+				}
 			}
-		} else if k, isK := c03ConstInt(c.start); isK {
-			startDesc = fmt.Sprintf("the constant %d", k)
+			sort.Slice(missing, func(a, b int) bool { return missing[a] < missing[b] })
+			if len(missing) > 0 && w.bad == "" {
+				msg := fmt.Sprintf("%s: an accepting path (%s) never reads byte(s) %v of the message, which belong to the %d padding bytes: malformed PKCS#7 padding is stripped without error", rn.desc, e.describe(o), missing, P)
+				if o.Imprecise {
+					w.imprecise = msg
+				} else {
+					w.bad = msg
+				}
+			}
+			if len(readOnly) > 0 && w.imprecise == "" {
+				w.imprecise = fmt.Sprintf("%s: padding byte(s) %v are read but not compared through ==, bytes.Equal, hmac.Equal, subtle.ConstantTimeCompare or bytes.HasSuffix", rn.desc, readOnly)
+			}
 		}
-		// bound: continue while phi < len(buf)
-		var hdr *ssa.If
-		boundOK, boundDesc, exitIdx := false, "", 1
-		allInstrs(fn, func(in ssa.Instruction) {
-			ifi, ok := in.(*ssa.If)
-			if !ok || hdr != nil {
-				return
-			}
-			cmp, ok := decodeCond(ifi.Cond, true)
-			if !ok {
-				return
-			}
-			X, Y, op := cmp.X, cmp.Y, cmp.Op
-			if Y == ssa.Value(c.phi) {
-				X, Y, op = Y, X, c03FlipOp(op)
-			}
-			if X != ssa.Value(c.phi) {
-				return
-			}
-			hdr = ifi
-			switch {
-			case u.isLen(Y) && op == token.LSS:
-				boundOK, exitIdx = true, 1
-			case u.isLen(Y) && op == token.GEQ: // `if i >= len(buf) { break }`
-				boundOK, exitIdx = true, 0
-			case u.isLen(Y):
-				boundDesc = "i " + op.String() + " len(buf) holds on the branch at " + p.Pos(instrPos(ifi))
-			}
-		})
-		if hdr == nil {
-			und(construct, "the loop test of the padding loop at "+where+" was not recognised")
-			return
+		if anySuccess && !unconstrained && w.bad == "" {
+			w.bad = fmt.Sprintf("%s: every accepting path also requires message byte %d, which is not one of the %d padding bytes, to have a particular value: well-formed padding is refused depending on the message content (the verification does not cover exactly the last padLen bytes)", rn.desc, constrainedAt, P)
 		}
-		exit := hdr.Block().Succs[exitIdx]
-		mismatchEscapes := reachableFrom(c.mismatch, nil)[ret.Block()]
-		dominated := edgeDominates(hdr.Block(), exit, ret.Block())
-		switch {
-		case startOK && boundOK && !mismatchEscapes && dominated:
-			r.OK(rule, construct, rpos, "buf[len-padLen .. len) is compared byte by byte with byte(padLen); a mismatch cannot reach the stripping return")
-		case startOK && boundOK && mismatchEscapes:
-			r.Violation(rule, construct, where, "a padding byte that differs from the pad length does not lead to an error: the mismatch branch can still reach the stripping return (malformed PKCS#7 padding accepted)")
-		case startOK && boundOK:
-			r.Violation(rule, construct, rpos, "the stripping return can be reached without passing through the loop that verifies the padding bytes")
-		case !startOK && startDesc != "an expression the checker does not classify":
-			r.Violation(rule, construct, where, "the loop that verifies the padding bytes starts at "+startDesc+" instead of len(buf)-padLen: it does not cover exactly the last padLen bytes, so malformed padding is accepted or well-formed padding refused")
-		case startOK && boundDesc != "":
-			r.Violation(rule, construct, where, "the loop that verifies the padding bytes does not run exactly while i < len(buf) ("+boundDesc+"): it does not cover exactly the last padLen bytes")
-		default:
-			und(construct, "the bounds of the padding loop at "+where+" are not of a classified form")
-		}
-		return
+		vl.merge(w)
 	}
+	e.settle(rule, cLoop, pos, vl, "on every accepting path each padding byte was compared with the pad length and found equal", "the padding bytes are not all verified before the padding is stripped")
 }
